@@ -162,6 +162,9 @@ TEMPLATES = {
     "port": [A("permit", "tcp", dport=("range", ["p", "p2"])), A("permit", "tcp", dport=("eq", ["q"])),
              A("deny", "tcp", dport=("eq", ["q"])), A("permit", "udp", dport=("eq", ["q"])), A("permit", "tcp", src=("h", "Y"), dport=("eq", ["q"])),
              A("permit", "ip")],
+    # IOS only: a multi-port eq entry leaving a gap above single-port entries that may fall into the gap
+    "port-gap": [A("permit", "tcp", dport=("eq", ["p", "p2"])), A("permit", "tcp", dport=("eq", ["q"])), A("deny", "tcp", dport=("range", ["p", "p2"])),
+                 A("permit", "tcp", dport=("eq", ["p"])), A("deny", "ip")],
     # remarks, headings, log keyword, flags
     "mixed": [R("= g1, first"), A("permit", src=X24), R("note"), A("permit", src=("h", "Xh"), log="log"), R("= g2"),
               A("deny", "tcp", dst=("h", "Y"), flags=["ack"]), A("deny", "tcp", dst=("h", "Y"), flags=["ack", "syn"]), A("deny", "ip")],
@@ -175,3 +178,8 @@ TEMPLATES = {
     "group": [A("permit", src=("g", "G1")), A("permit", src=("h", "Xh")), A("permit", src=("h", "Y")), A("deny", src=("g", "G2")),
               A("permit", src=("g", "G2")), A("permit", src=("g", "G2"), dst=("g", "G1")), A("permit", dst=("g", "G2"))],
 }
+
+
+def ios_only(specs):
+    """templates with a multi-port eq/neq entry exist on IOS only"""
+    return any(s["kind"] == "ace" and any(d is not None and d[0] in ("eq", "neq") and len(d[1]) > 1 for d in (s["sport"], s["dport"])) for s in specs)
